@@ -16,9 +16,9 @@ Cfg(e) == [kind |-> e.kind, K |-> e.K, Kin |-> e.Kin, failAt |-> e.failAt, maxfu
 
 TInit == /\ tid \in 1..Len(Traces) /\ l = 2 /\ verdict = "ok"
          /\ cfg = Cfg(Traces[tid][1])
-         /\ m = NewStep(1, 1, IF cfg.kind = "eval" THEN "eval" ELSE "opt", cfg.K, cfg.kind = "nested")
+         /\ m = NewStep(1, 1, IF cfg.kind = "eval" THEN "eval" ELSE "opt", cfg.K, cfg.kind \in {"nested", "renest"})
          /\ stack = <<>> /\ stream = <<>> /\ emc = 0 /\ callc = 0
-         /\ aborted = <<FALSE, FALSE>> /\ rets = <<>> /\ refused = <<>>
+         /\ aborted = <<FALSE, FALSE, FALSE>> /\ rets = <<>> /\ refused = <<>>
 
 Silent == /\ verdict = "ok" /\ (Loop \/ EnterNested \/ Call \/ EvalDone \/ Finish) /\ UNCHANGED tvars
 
@@ -27,7 +27,7 @@ Stop(v) == verdict' = v /\ UNCHANGED <<tid, l>> /\ UNCHANGED vars
 \* the model is about to deliver: the next logged event must be that delivery
 TDeliver ==
   /\ verdict = "ok" /\ m.st = "emit"
-  /\ LET want == Receivers(m.level)[m.di + 1] IN
+  /\ LET want == ReceiversOf(m.level, m.outer)[m.di + 1] IN
      IF l > Len(Tr) THEN Stop("missing_" \o m.em)
      ELSE LET e == Tr[l] IN
           IF e.ev # "Deliver" THEN Stop("missing_" \o m.em)
